@@ -170,7 +170,7 @@ package handlers
 //@   ensures [labelled-line-frame] implies(len(old(h.readBuf.content)) == 0 && g_kind == 3 && !h.plain, str(p[0:n]) + h.readBuf.content == "REMOTE|" + h.hostname + "|" + ufs_fmt_3d(g_perc) + "|" + itoa(g_count) + "|" + g_srcStr + "|" + g_contentStr + "\xac")
 //@   at-call WriteString@line.Content.String() [content-has-no-delimiter] !contains(arg1, "\xac")
 //@   at-call WriteString@line.Content.String() [plain-content-not-hidden] implies(h.plain, !hasPrefix(arg1, "."))
-//@   at-call WriteString@"SERVER" [plain-no-extra-bytes] !h.plain
+//@   at-call @"SERVER" [plain-no-extra-bytes] !h.plain
 //@   ensures [n-in-range] 0 <= n && n <= len(p)
 
 // ---- request decoding (C12) -------------------------------------------------------------------
